@@ -1244,6 +1244,22 @@ def tabintp_forms(prog: Program, run: Run, R: str, R_roles: str) -> None:
             binds[n.targets[0].id] = ast.unparse(n.value)
     loop = [l for l in walk_no_nested(f.node) if isinstance(l, ast.For)]
     i = ast.unparse(loop[0].target) if loop else "i"
+    pairs_ok = False
+    if loop:
+        # `for i, (l, r) in enumerate(zip(S, S[1:]))`: l, r are S[i], S[i + 1] of every adjacent pair
+        it, tg = loop[0].iter, loop[0].target
+        if isinstance(it, ast.Call) and call_name(it) == "enumerate" and len(it.args) == 1 and \
+                isinstance(tg, ast.Tuple) and len(tg.elts) == 2 and isinstance(tg.elts[0], ast.Name):
+            z, lr = it.args[0], tg.elts[1]
+            if isinstance(z, ast.Call) and call_name(z) == "zip" and len(z.args) == 2 and \
+                    isinstance(lr, ast.Tuple) and len(lr.elts) == 2 and all(
+                        isinstance(e, ast.Name) for e in lr.elts) and \
+                    ast.unparse(z.args[1]) == f"{ast.unparse(z.args[0])}[1:]" and \
+                    ast.unparse(z.args[0]) in (rs, ds):
+                i = tg.elts[0].id
+                binds[lr.elts[0].id] = f"{ast.unparse(z.args[0])}[{i}]"
+                binds[lr.elts[1].id] = f"{ast.unparse(z.args[0])}[{i} + 1]"
+                pairs_ok = True
     role = {f"{rs}[{i}]": "X0", f"{rs}[{i} + 1]": "X1", f"{ds}[{i}]": "Y0", f"{ds}[{i} + 1]": "Y1"}
 
     def env(node: ast.AST):
@@ -1274,6 +1290,9 @@ def tabintp_forms(prog: Program, run: Run, R: str, R_roles: str) -> None:
             def visit_NamedExpr(self, n):  # noqa: N802
                 return n.target
         tt = Tr().visit(ast.parse(ast.unparse(t.test), mode="eval").body)
+        if len(t.body) == 1 and isinstance(t.body[0], ast.Continue) and not t.orelse:
+            # `if not x0 <= x <= x1: continue`
+            tt = ast.UnaryOp(op=ast.Not(), operand=tt)
         s = norm_test(tt, env)
         w1 = norm_test(ast.parse("X0 <= X and X <= X1", mode="eval").body)
         if s == w1:
@@ -1282,8 +1301,8 @@ def tabintp_forms(prog: Program, run: Run, R: str, R_roles: str) -> None:
         run.ok(R, C, "the first bracket with x0 <= x <= x1 is used", f.loc)
     else:
         run.violation(R, C, "bracket-test", "the bracket is not selected by x0 <= x <= x1", f.loc)
-    if loop and ast.unparse(loop[0].iter).replace(" ", "") in (
-            f"range(0,len({rs})-1)", f"range(len({rs})-1)"):
+    if loop and (pairs_ok or ast.unparse(loop[0].iter).replace(" ", "") in (
+            f"range(0,len({rs})-1)", f"range(len({rs})-1)")):
         run.ok(R, C, "all adjacent pairs of samples are brackets", f.loc)
     else:
         run.violation(R, C, "bracket-range", "not every adjacent pair of samples is tried", f.loc)
